@@ -11,7 +11,11 @@ value / a reference); the peer closes from inside its handler; the two sides' cl
 at once (also from a second thread while the other thread is blocked in serve); close() with a
 `before_closed` hook that returns / raises (close_catchall off and on) / has to fetch the root; the same on a
 TCP-like transport that accepts a write after the peer has closed (the peer's HANDLE_CLOSE is then served
-INSIDE close()).  After each run: every pending result is waited for, a request by value and one with a
+INSIDE close()).  A further small family runs over REAL
+transports (PipeStream.create_pair, SocketStream over socket.socketpair; real threads, observations with ceilings): the peer's
+end going away without HANDLE_CLOSE while this side is in wait() / in serve_all() / holds a callback object for the peer, and
+the orderly close as control — what `Stream.poll` and the real streams do at end-of-stream is invisible on the in-memory
+network.  After each run: every pending result is waited for, a request by value and one with a
 by-reference argument are issued, close() is called again, on both sides.
 
 An abstraction function maps what the transport saw (harness/protonet.py), what the harness called
@@ -1044,6 +1048,29 @@ def correspondence(ctx):
             side, n, ids = metas[base + 1]
             c.samples.append(dict(workload=wname, fault=f, fired=h.fired, ops=lines[base + 1][:300],
                                   outcome=compare(h, side, n, ids, outs[base + 1])[0][:300]))
+    # real transports (pipes, socket pairs), real threads: a few runs with ceilings
+    rlines, rres = [], []
+    for transport, scenario in real_cases():
+        res = run_real(transport, scenario)           # Infrastructure propagates: exit 2
+        rres.append(res)
+        rlines.append("life run " + " ".join(res["tokens"]))
+    try:
+        routs = run_driver(rlines, exe="drv_proto")
+    except DriverError as ex:
+        c.error = str(ex)
+        return c
+    for res, line, got in zip(rres, rlines, routs):
+        c.evaluations += 1
+        c.count("real-transport:%s" % res["transport"])
+        c.count("real-scenario:%s" % res["scenario"])
+        if res["scenario"] == "abrupt_holding_callback":
+            c.count("real-objects-held-for-peer-before-the-end", res.get("held_before") or 0)
+        impl, mod = real_view(res), real_model_view(got)
+        c.signatures.add("real|%s|%s|%s" % (res["transport"], res["scenario"], impl))
+        if impl != mod or real_oracle(res):
+            c.disagreements.append(dict(case=dict(kind="real", transport=res["transport"], scenario=res["scenario"]),
+                                        impl=impl, model=mod, detail=[dict(ops=line, observed=dict(
+                                            (k, v) for k, v in res.items() if k != "tokens"))]))
     complete = not c.distribution.get("skipped:time-budget")
     c.exhaustive = bool(complete and thorough)       # thorough: also every byte offset of every packet
     c.extra["every_transport_call_of_every_workload_faulted"] = bool(complete)
@@ -1051,6 +1078,213 @@ def correspondence(ctx):
                                   "poll of serve_all with OSError; byte offsets inside packets: %s"
                                   % ("all" if thorough else "boundaries + 2 seeded per packet"))
     return c
+
+
+# ---------------------------------------------------------------------------------------------- real transports
+# A small family of runs over REAL streams (PipeStream.create_pair, SocketStream over socket.socketpair): what the
+# deterministic network cannot see is `Stream.poll` / `PipeStream` / `SocketStream` themselves meeting end-of-stream.
+# Real threads and real time: every observation is "wait until <monotone condition> or the ceiling", never sleep-and-hope;
+# reaching the ceiling IS the violation ("the side never became closed").
+import os
+import socket
+import threading
+
+REAL_CEILING = 5.0
+REAL_TRANSPORTS = ("pipe", "socket")
+REAL_SCENARIOS = ("abrupt_in_wait", "abrupt_in_serve_all", "abrupt_holding_callback", "orderly_in_serve_all",
+                  "orderly_in_wait")
+
+
+class Infrastructure(Exception):
+    """the run could not be set up (no pipes / sockets / threads): exit 2, never a violation"""
+
+
+def wait_until(cond, ceiling=REAL_CEILING):
+    t_end = time.time() + ceiling
+    while True:
+        if cond():
+            return True
+        if time.time() >= t_end:
+            return False
+        time.sleep(0.005)
+
+
+class RealSvc(rpyc.Service):
+    def __init__(self, box, side):
+        self.box = box
+        self.side = side
+
+    def on_disconnect(self, conn):
+        self.box["hooks"][self.side] += 1
+
+    def exposed_slow(self):
+        self.box["started"].set()
+        self.box["release"].wait(REAL_CEILING * 3)
+        return 5
+
+    def exposed_hold(self, f):
+        self.box["held"].append(f)           # B keeps a proxy of A's object: A holds the object for B
+        return 6
+
+    def exposed_cb(self):
+        return 7
+
+
+def real_pair(transport):
+    from rpyc.core.stream import PipeStream, SocketStream
+    try:
+        if transport == "pipe":
+            return PipeStream.create_pair()
+        a, b = socket.socketpair()
+        return SocketStream(a), SocketStream(b)
+    except Exception as ex:  # noqa
+        raise Infrastructure("cannot create a %s pair: %r" % (transport, ex))
+
+
+def run_real(transport, scenario):
+    """one real-transport run -> dict(observed=..., tokens=model events of side A, problems=[...])"""
+    box = dict(hooks={"A": 0, "B": 0}, started=threading.Event(), release=threading.Event(), held=[])
+    stra, strb = real_pair(transport)
+    sa, sb = RealSvc(box, "A"), RealSvc(box, "B")
+    ca = sa._connect(Channel(stra), {"sync_request_timeout": REAL_CEILING * 2})
+    cb = sb._connect(Channel(strb), {"sync_request_timeout": REAL_CEILING * 2})
+    res = dict(transport=transport, scenario=scenario, a_out=None, serve_all_returned=None, wait_out=None)
+    tb = threading.Thread(target=lambda: _quiet(cb.serve_all), daemon=True, name="real-B")
+    tb.start()
+    toks = []
+    threads = [tb]
+    try:
+        root = ca.root
+        slow = root.slow
+        if scenario == "abrupt_holding_callback":
+            root.hold(sa.exposed_cb)                      # by-reference argument: A now holds an object for B
+        ar = rpyc.async_(slow)()                          # pending: B's handler blocks
+        toks.append("is0:F")
+        if not box["started"].wait(REAL_CEILING):
+            raise Infrastructure("side B never started the handler")
+        in_wait = scenario.endswith("in_wait")
+
+        def a_body():
+            try:
+                if in_wait:
+                    try:
+                        ar.wait()
+                        res["a_out"] = "v"
+                    except EOFError:
+                        res["a_out"] = "eof"
+                else:
+                    ca.serve_all()
+                    res["serve_all_returned"] = True
+            except BaseException as ex:  # noqa
+                res["a_out"] = "other:" + type(ex).__name__
+        ta = threading.Thread(target=a_body, daemon=True, name="real-A")
+        ta.start()
+        threads.append(ta)
+        if in_wait:
+            toks.append("w0:Fe")
+        try:
+            res["held_before"] = len(ca._local_objects._dict)
+        except AttributeError:
+            res["held_before"] = None
+        time.sleep(0.02)                                  # (not an observation: lets A reach its poll; any order is legal)
+        if scenario.startswith("abrupt"):
+            strb.close()                                  # B's end goes away: no HANDLE_CLOSE
+            toks.append("ese")
+        else:
+            cb.close()                                    # orderly: HANDLE_CLOSE reaches A
+            toks.append("rc")
+        res["closed_in_time"] = wait_until(lambda: ca.closed)
+        res["a_thread_ended"] = wait_until(lambda: not ta.is_alive())
+        if not in_wait:
+            toks.append("sxe")
+        # the pending request, looked at afterwards (in a helper thread: it must not be able to hang the check)
+        def w_body():
+            try:
+                ar.wait()
+                res["wait_out"] = "v"
+            except EOFError:
+                res["wait_out"] = "eof"
+            except BaseException as ex:  # noqa
+                res["wait_out"] = "other:" + type(ex).__name__
+        if in_wait:
+            res["wait_out"] = res["a_out"]
+        else:
+            tw = threading.Thread(target=w_body, daemon=True, name="real-W")
+            tw.start()
+            threads.append(tw)
+            wait_until(lambda: not tw.is_alive())
+            toks.append("w0:Fe")
+        res["closed"] = bool(ca.closed)
+        res["hooks"] = box["hooks"]["A"]
+        try:
+            res["tables"] = (len(ca._local_objects._dict), len(ca._proxy_cache), len(ca._request_callbacks))
+        except AttributeError:
+            res["tables"] = None
+        try:
+            ca.close()
+            res["close_again"] = None
+        except BaseException as ex:  # noqa
+            res["close_again"] = type(ex).__name__
+        toks.append("cb")
+        res["hooks_after"] = box["hooks"]["A"]
+    finally:
+        box["release"].set()
+        for st in (stra, strb):
+            try:
+                st.close()                                # also ends a thread that would otherwise poll forever
+            except Exception:  # noqa
+                pass
+        for th in threads:
+            th.join(REAL_CEILING)
+        box["held"] = []
+    res["tokens"] = toks
+    return res
+
+
+def _quiet(fn):
+    try:
+        fn()
+    except BaseException:  # noqa
+        pass
+
+
+def real_view(res):
+    out = "0:%s" % (res["wait_out"] or "hang")
+    tables = "?" if res["tables"] is None else ("T" if sum(res["tables"]) == 0 else "F")
+    return "closed=%s hook=%d tables=%s out=%s blocked=0" % ("T" if res["closed"] else "F", res["hooks_after"], tables, out)
+
+
+def real_model_view(mline):
+    pm = parse_model(mline)
+    if pm is None:
+        return "model " + mline
+    if pm["acc"] != pm["total"]:
+        return "acc=%d/%d" % (pm["acc"], pm["total"])
+    return "closed=%s hook=%d tables=%s out=%s blocked=%d" % (pm["closed"], pm["hook"], pm["tables"],
+                                                              ",".join(pm["out"]), len(pm["blocked"]))
+
+
+def real_oracle(res):
+    """the statement on one real-transport run; None or (text, signature)"""
+    where = "%s/%s" % (res["transport"], res["scenario"])
+    if not res.get("closed_in_time"):
+        return ("%s: side A never became closed within %.0f s after its peer went away (hook runs %d, tables %r)"
+                % (where, REAL_CEILING, res.get("hooks", 0), res.get("tables")), "C11:side-never-became-closed")
+    if res["hooks_after"] != 1:
+        return ("%s: disconnect hook ran %d times" % (where, res["hooks_after"]), "C11:hook-count")
+    if res["tables"] is not None and sum(res["tables"]) != 0:
+        return ("%s: closed but holds %r" % (where, res["tables"]), "C11:tables-not-cleared")
+    if res["wait_out"] != "eof":
+        return ("%s: the pending request ended with %r, not EOFError" % (where, res["wait_out"]), "C11:hang")
+    if not res["a_thread_ended"] or (not res["scenario"].endswith("in_wait") and not res["serve_all_returned"]):
+        return ("%s: serve_all()/wait() did not return" % where, "C11:hang")
+    if res["close_again"] is not None:
+        return ("%s: closing again raised %s" % (where, res["close_again"]), "C11:close-again-raises")
+    return None
+
+
+def real_cases():
+    return [(t, sc) for t in REAL_TRANSPORTS for sc in REAL_SCENARIOS]
 
 
 # ---------------------------------------------------------------------------------------------- direct oracle
@@ -1178,6 +1412,19 @@ def oracle_search(ctx, corr, broken):
             return (dict(kind="fault", workload=wname, fault=f, fired=h.fired), res[0], res[1])
         return None
 
+    def check_real(transport, scenario):
+        res = run_real(transport, scenario)
+        r = real_oracle(res)
+        if r and r[1] not in getattr(ctx, "known_signatures", set()):
+            return (dict(kind="real", transport=transport, scenario=scenario), r[0], r[1])
+        return None
+
+    for d in corr.disagreements[:80]:
+        cs = d.get("case", {})
+        if cs.get("kind") == "real":
+            r = check_real(cs["transport"], cs["scenario"])
+            if r:
+                return r
     for d in corr.disagreements[:80]:
         cs = d.get("case", {})
         if "workload" in cs:
@@ -1188,6 +1435,10 @@ def oracle_search(ctx, corr, broken):
         if time.time() > deadline:
             break
         r = check(wname, None)
+        if r:
+            return r
+    for transport, scenario in real_cases():
+        r = check_real(transport, scenario)
         if r:
             return r
     for wname in WORKLOADS:
@@ -1205,6 +1456,16 @@ def oracle_search(ctx, corr, broken):
 
 
 def replay(case):
+    if case.get("kind") == "real":
+        res = run_real(case["transport"], case["scenario"])
+        line = "life run " + " ".join(res["tokens"])
+        try:
+            got = run_driver([line], exe="drv_proto")[0]
+        except DriverError as ex:
+            got = "driver: %s" % ex
+        r = real_oracle(res)
+        return dict(case=case, implementation=real_view(res), model=real_model_view(got), model_ops=line,
+                    observed=dict((k, v) for k, v in res.items() if k != "tokens"), oracle=r[0] if r else "holds")
     wname, f = case["workload"], case.get("fault")
     h, lines, metas = run_case(wname, f)
     out = dict(case=case, fired=h.fired, notes=h.notes, hang=h.hang)
